@@ -32,7 +32,7 @@ TRANSFORMS = ["perm-vertices", "perm-edges", "relabel", "shift-2pi", "negate-qua
 @S.composite
 def strategy_(g):
     tr = g.choice(TRANSFORMS)
-    kw = dict(n_pose=(2, 8), n_lm=(0, 3), n_loops=(0, 3), conds=(1.0, 1e2), noise=(0.05, 0.05), pert=(0.3, 0.3), features=("parallel", "reversed", "permute", "ids", "multifixed", "rn_lm_offsets", "quat-signs", "pure-translation-steps"), allow_zero_noise=False)
+    kw = dict(n_pose=(2, 8), n_lm=(0, 3), n_loops=(0, 3), conds=(1.0, 1e2), noise=(0.05, 0.05), pert=(0.3, 0.3), features=("parallel", "reversed", "permute", "ids", "multifixed", "rn_lm_offsets", "quat-signs", "pure-translation-steps", "lm_odo", "near-identity-orientations"), allow_zero_noise=False)
     if tr == "shift-2pi":
         kw["bases"] = ("se2",)
     if tr == "negate-quat":
@@ -205,7 +205,7 @@ def check(case, ctx):
     # skip (e) at 180-degree residuals
     if tr == "negate-quat":
         for e in g1._edges:
-            if isinstance(e, gs.EdgeOdometry):
+            if isinstance(e, gs.EdgeOdometry) and gs.kind_of(e.estimate) == "se3":
                 err = e.estimate - (e.vertices[1].pose - e.vertices[0].pose)
                 if abs(float(err[6])) < 1e-6:
                     ctx.event("skipped:180deg-residual")
@@ -249,6 +249,13 @@ def check(case, ctx):
         return False
 
     k = case["k"]
+    # point-to-point constraints between landmarks (R^n odometry edges in an SE(n) graph): Gauss-Newton need not settle there
+    # (DESIGN corrections), so only the first two iterations are compared and the run-to-convergence part is left out
+    roles = {v["id"]: v["role"] for v in case["verts"]}
+    lm_odo = base in ("se2", "se3") and any(e["t"] == "odo" and all(roles[i] == "lm" for i in e["ids"]) for e in case["edges"])
+    if lm_odo:
+        ctx.event("landmark-to-landmark-edges:first-two-iterations-only")
+        k = min(k, 2)
     ra, _ = GC.optimize_quiet(g1, tol=0.0, max_iter=k, fix_first_pose=ffp, verbose=False)
     rb, _ = GC.optimize_quiet(g2, tol=0.0, max_iter=k, fix_first_pose=ffp, verbose=False)
     if not GC.all_finite(g1):
@@ -275,6 +282,8 @@ def check(case, ctx):
             return ctx.fail("report-representation-dependent:" + tr, "chi2[%d] %r vs %r (after /c)" % (j, a, b))
 
     # ---- default optimize() from the start
+    if lm_odo:
+        return
     g1, g2 = GG.build(c1), GG.build(c2)
     ra, _ = GC.optimize_quiet(g1, fix_first_pose=ffp, verbose=False)
     rb, _ = GC.optimize_quiet(g2, fix_first_pose=ffp, verbose=False)
